@@ -152,7 +152,8 @@ def run(ck: Check):
                   "caller_names_injected_parameter": "C19:arguments-changed",
                   "optional_injection_is_the_optional_lookup": "C19:differs-from-explicit-lookup",
                   "wrapper_kind_decides_the_lookup": "C19:differs-from-explicit-lookup",
-                  "injected_call_in_a_closed_context_is_the_explicit_call": "C19:differs-from-explicit-lookup"})
+                  "injected_call_in_a_closed_context_is_the_explicit_call": "C19:differs-from-explicit-lookup",
+                  "annotations_mean_what_they_say": "C19:differs-from-explicit-lookup"})
     sigs, n_fail = {}, 0
     for r in results:
         for sig, what in oracle(r):
